@@ -229,55 +229,190 @@ def r3_slots(ctx, kind, fn, m):
 
 
 def r3_callsites(ctx):
-    """Network::update and Feedback::update: (layer, filter, bias) triples and gradient selection."""
+    """Network::update and Feedback::update on their E6 summaries: the layers are walked in the reverse order in which the optimizer
+    state was sized; per layer variant every parameter tensor is handed to Optimizer::update exactly once, with its own gradient and
+    its own (layer, filter, bias) slot:  Dense: (i, 0, false, W, dW[i]) and, iff a bias exists, (i, 0, true, b, db[i]);
+    (De)Convolution: for every (f, (kernel, gradient)) of kernels zipped with the per-filter split of dW[i]: (i, f, false, kernel, gradient)."""
+    from .. import e6
     c = ctx.crate
+    LAYERS = ("field", ("p", "self"), "layers")
     for fpath in ("network::Network::update", "feedback::Feedback::update"):
         fn = ctx.fn(fpath)
-        # traversal: self.layers.iter_mut().rev().enumerate().for_each(|(i, layer)| match layer {..})
-        trav = None
-        for x in walk(fn["body"], into_closures=False):
-            t_ = e4.traversal(x)
-            if t_ is not None and t_["field"] == "layers" and any(cal == "optimizer::Optimizer::update" for _, cal in calls(t_["body"])):
-                trav = t_
-        if trav is None:
-            raise Unestablished("no traversal of self.layers calling the optimizer in %s" % fpath, c.loc(fn))
-        x, chain = trav["node"], trav["methods"]
         short_name = fpath.split("::")[1]
-        ctx.check("R03.3", short_name + ":reverse-enumerate", chain == ["iter_mut", "rev", "enumerate"], "layer-walk:" + ".".join(chain), c.loc(fn, x),
-                  "layers walked as iter_mut().rev().enumerate(), matching the reverse order in which set_optimizer sizes the state",
-                  "optimizer state is allocated in reverse layer order (set_optimizer/copy_optimizer); the walk is %s" % chain)
-        cl = {"body": trav["body"], "params": [trav["pat"]]}
-        binds = pat_binds(cl["params"][0])
-        ih = binds[0][1]
-        n = 0
-        for y in walk(cl["body"]):
-            if y.get("k") == "mcall" and y["callee"] == "optimizer::Optimizer::update":
-                n += 1
-                a = y["args"]
-                layer_ok = e4.local_hid(a[0]) == ih
-                bias_v = e4.lit_value(a[2])
-                filt = strip(a[1])
-                # gradient argument indexed by the same i
-                from ..hir import let_table, cpretty
-                TT = let_table(fn["body"])
-                values = cpretty(a[4], TT)
-                grads = cpretty(a[5], TT)
-                gsel = ("[%s]" % binds[0][0]) in grads or e4.local_hid(a[5]) is not None
-                kind_ok = True
-                if bias_v == "true":
-                    kind_ok = "bias" in values and "bias" in grads and e4.lit_value(a[1]) == "0"
-                elif "weights" in values:
-                    kind_ok = "weight" in grads and e4.lit_value(a[1]) == "0"
+        E = e6.Exec(c, fn)
+        live = [p for p in E.run_fn() if p.exit is None or p.exit[0] == "return"]
+        if len(live) != 1:
+            raise Unestablished("%s: expected one non-panicking path, found %d" % (fpath, len(live)), c.loc(fn))
+        P = live[0]
+
+        def has_update(lid):
+            for q in E.loop_summaries[lid]["paths"]:
+                for e in q.eff:
+                    if e[0] == "mut" and e[1] == "optimizer::Optimizer::update":
+                        return True
+                    if e[0] == "loop" and has_update(e[1]):
+                        return True
+            return False
+        walks = [e[1] for e in P.eff if e[0] == "loop" and has_update(e[1])]
+        if len(walks) != 1:
+            raise Unestablished("no traversal of self.layers calling the optimizer in %s" % fpath, c.loc(fn))
+        lid = walks[0]
+        L = E.loop_summaries[lid]
+        wloc = c.loc(fn, L["node"])
+        src = L.get("recv") if L.get("kind") == "closure" else L.get("iter")
+        sw = e6.seq_walk(src, lid, LAYERS)
+        LAYER, R = None, None
+        if sw is not None:
+            for d in ("rev", "fwd"):
+                if sw[d] is not None and sw["pos"][d] is not None:
+                    cand = e6.walk_element(L["paths"], sw[d])
+                    if cand is not None:
+                        LAYER = cand
+                        LEN = ("call", "std::vec::Vec::<T, A>::len", (LAYERS,))
+                        pos = sw["pos"][d]
+                        # reverse ordinal of the element: len - 1 - position  (the order in which the state was sized and the gradients were pushed)
+                        R = ({k: -v for k, v in pos[0].items()}, -pos[1] - 1)
+                        ln = e6.lin(LEN)
+                        R = ({k: v for k, v in {**R[0], **{k2: R[0].get(k2, 0) + v2 for k2, v2 in ln[0].items()}}.items() if v != 0}, R[1] + ln[1])
+                        break
+        okw = LAYER is not None and (L.get("kind") != "closure" or L.get("callee", "").endswith("::for_each"))
+        ctx.check("R03.3", short_name + ":reverse-enumerate", okw, "layer-walk:" + short(e6.show(src, 3), 60), wloc,
+                  "layers walked with their reverse ordinal (iter_mut().rev().enumerate()), matching the reverse order in which set_optimizer sizes the state",
+                  "optimizer state is allocated in reverse layer order (set_optimizer/copy_optimizer); the walk is %s" % e6.show(src, 3)[:100])
+        if not okw:
+            continue
+
+        class _I:
+            """compares equal to any term whose linear form is the reverse ordinal"""
+            def __eq__(self, other):
+                return e6.lin(e6.strip_upd(other)) == R
+            def __ne__(self, other):
+                return not self.__eq__(other)
+            __hash__ = None
+        I = _I()
+        STEP = ("p", "stepnr")
+        roles = {}
+
+        def grad_base(t, want_unwrap=False):
+            """t = BASE[I]  (-> root name of BASE)"""
+            t = e6.strip_upd(t)
+            if want_unwrap:
+                u = e6.is_call(t, "unwrap", 1) or e6.is_call(t, "expect")
+                if not u:
+                    return None
+                t = u[0]
+            if isinstance(t, tuple) and t and t[0] == "idx" and I == t[2]:
+                return e6.root_name(t[1]) or e6.show(t[1], 2)
+            return None
+        seen = {}
+        for q in L["paths"]:
+            if q.exit is not None:
+                continue
+            vp = e6.variant_of(q).get(LAYER)
+            if vp is None:
+                seen.setdefault("?", []).append("a path of the walk does not dispatch on the layer")
+                continue
+            kind = vp.split("::")[-1]
+            pay = ("payload", LAYER, vp, 0)
+            ups = [e for e in q.eff if e[0] == "mut" and e[1] == "optimizer::Optimizer::update"]
+            loops = [e for e in q.eff if e[0] == "loop" and has_update(e[1])]
+            why = None
+            if kind == "Dense":
+                args = [tuple(e6.strip_upd(a) for a in e[3]) for e in ups]
+                hasb = None
+                for (t, pol) in q.pc:
+                    t0 = e6.strip_upd(t)
+                    if isinstance(t0, tuple) and t0[0] == "is" and t0[1] == ("field", pay, "bias") and t0[2] == "Option::Some":
+                        hasb = pol
+                    if isinstance(t0, tuple) and t0[0] == "is" and t0[1] == ("field", pay, "bias") and t0[2] == "Option::None" and pol:
+                        hasb = False
+                w_ = [a for a in args if len(a) == 6 and a[2] == ("lit", "false")]
+                b_ = [a for a in args if len(a) == 6 and a[2] == ("lit", "true")]
+                if loops or len(w_) != 1 or len(w_) + len(b_) != len(args) or hasb is None:
+                    why = "%d weight / %d bias update(s), bias presence %s" % (len(w_), len(b_), "decided" if hasb is not None else "not decided")
                 else:
-                    kind_ok = filt.get("k") == "local"  # per-filter index from enumerate over kernels
-                    # the filter index must come from an enumerate over layer.kernels zipped with the gradient split
-                inst = "%s:call%d" % (short_name, n)
-                ctx.check("R03.3", inst, layer_ok and gsel and kind_ok and bias_v in ("true", "false"),
-                          "slot-arguments:" + ",".join(pretty(z) for z in a[:3]), c.loc(fn, y),
-                          "update(%s) on %s with %s" % (", ".join(pretty(z) for z in a[:3]), values, short(grads, 40)),
-                          "Optimizer::update called with slot (%s) for %s / %s" % (", ".join(pretty(z) for z in a[:3]), values, short(grads, 60)))
-        ctx.floor("R03.3", 1, "")
-    ctx.floor("R03.3", 8 + 2 + 8, "8 state slots, 2 walks, 8 call sites")
+                    a = w_[0]
+                    g = grad_base(a[5])
+                    if not (I == a[0] and a[1] == ("lit", "0") and a[3] == STEP and a[4] == ("field", pay, "weights") and g):
+                        why = "weights: update(%s)" % ", ".join(e6.show(x, 2)[:40] for x in a)
+                    else:
+                        roles.setdefault("W", set()).add(g)
+                    if hasb and not why:
+                        if len(b_) != 1:
+                            why = "a layer with a bias gets %d bias update(s)" % len(b_)
+                        else:
+                            a = b_[0]
+                            g = grad_base(a[5], want_unwrap=True)
+                            if not (I == a[0] and a[1] == ("lit", "0") and a[3] == STEP and a[4] == ("payload", ("field", pay, "bias"), "Option::Some", 0) and g):
+                                why = "bias: update(%s)" % ", ".join(e6.show(x, 2)[:40] for x in a)
+                            else:
+                                roles.setdefault("B", set()).add(g)
+                    elif hasb is False and b_ and not why:
+                        why = "a layer without a bias gets a bias update"
+                seen.setdefault(kind + (":bias" if hasb else ":nobias"), []).append(why)
+                continue
+            if kind in ("Convolution", "Deconvolution"):
+                if ups or len(loops) != 1:
+                    why = "%d direct update(s), %d filter loop(s)" % (len(ups), len(loops))
+                else:
+                    # (the summary carried by the effect itself: a loop reached through an or-pattern is summarised once per alternative)
+                    fsrc = loops[0][2]
+                    fc = e6.is_call(fsrc, "for_each", 1)
+                    if fc:
+                        fsrc = fc[0]
+                    fen = e6.is_call(e6.strip_upd(fsrc), "enumerate", 1)
+                    zp = e6.is_call(fen[0], "zip", 2) if fen else None
+                    fps = [e6.Path({}, pc=x[0], eff=x[1], exit=x[2], val=x[3]) for x in loops[0][3]]
+                    fu = [e for e in fps[0].eff if e[0] == "mut" and e[1] == "optimizer::Optimizer::update"] if len(fps) == 1 else []
+                    if not zp or len(fps) != 1 or fps[0].pc or fps[0].exit is not None or len(fu) != 1 or len([e for e in fps[0].eff if e[0] != "loop"]) != 1:
+                        why = "filter loop over %s with %d path(s)" % (e6.show(fsrc, 3)[:80], len(fps))
+                    else:
+                        split = e6.is_call(zp[1], "quadruple_to_vec_triple", 1)
+                        g = grad_base(split[0]) if split else None
+                        a = tuple(e6.strip_upd(x) for x in fu[0][3])
+                        fel0 = ("elem", e6.strip_upd(fsrc), loops[0][1])
+                        okk = (zp[0] == ("field", pay, "kernels") and g and len(a) == 6 and I == a[0] and a[1] == ("proj", fel0, 0) and a[2] == ("lit", "false") and a[3] == STEP
+                               and a[4] == ("proj", ("proj", fel0, 1), 0) and a[5] == ("proj", ("proj", fel0, 1), 1))
+                        if not okk:
+                            why = "filters: %s with update(%s)" % (e6.show(fsrc, 3)[:80], ", ".join(e6.show(x, 2)[:30] for x in a))
+                        else:
+                            roles.setdefault("W", set()).add(g)
+                seen.setdefault(kind, []).append(why)
+                continue
+            if kind == "Feedback":
+                fu = [e for e in q.eff if e[0] == "mut" and e[1] == "feedback::Feedback::update"]
+                if ups or loops or len(fu) != 1:
+                    why = "%d block update(s)" % len(fu)
+                else:
+                    a = tuple(e6.strip_upd(x) for x in fu[0][3])
+                    g1 = grad_base(a[1]) if len(a) == 3 else None
+                    g2 = grad_base(a[2], want_unwrap=True) if len(a) == 3 else None
+                    if not (len(a) == 3 and a[0] == STEP and fu[0][4] == pay and g1 and g2):
+                        why = "block.update(%s)" % ", ".join(e6.show(x, 2)[:40] for x in a)
+                    else:
+                        roles.setdefault("W", set()).add(g1)
+                        roles.setdefault("B", set()).add(g2)
+                seen.setdefault(kind, []).append(why)
+                continue
+            if ups or loops:
+                seen.setdefault(kind, []).append("a %s layer has no parameters but the optimizer is called" % kind)
+            else:
+                seen.setdefault(kind, []).append(None)
+        want = ["Dense:bias", "Dense:nobias", "Convolution", "Deconvolution"] + (["Feedback"] if short_name == "Network" else [])
+        for k in want:
+            r_ = seen.get(k)
+            bad = [w for w in (r_ or []) if w]
+            ctx.check("R03.3", "%s:%s" % (short_name, k), bool(r_) and not bad, "slot-arguments:" + short("; ".join(bad) if r_ else "not handled", 80), wloc,
+                      "every parameter tensor of a %s layer is updated once with its own gradient and slot" % k,
+                      "%s, %s layer: %s" % (fpath, k, "; ".join(bad) if r_ else "no path of the walk handles this case"))
+        for k in sorted(set(seen) - set(want)):
+            bad = [w for w in seen[k] if w]
+            if bad:
+                ctx.bad("R03.3", "%s:%s" % (short_name, k), "slot-arguments:" + short("; ".join(bad), 80), wloc, "; ".join(bad))
+        okroles = len(roles.get("W", ())) == 1 and len(roles.get("B", ())) == 1 and roles["W"] != roles["B"]
+        ctx.check("R03.3", short_name + ":gradient-lists", okroles, "gradient-lists:%s" % sorted((k, sorted(v)) for k, v in roles.items()), wloc,
+                  "weights take their gradient from one list, biases from the other")
+    ctx.floor("R03.3", 8 + 2 + 9 + 2, "8 state slots, 2 walks, 9 layer cases, 2 gradient-list facts")
 
 
 def r4(ctx):
